@@ -909,6 +909,35 @@ fn audit(c: &Ctx, tag: &str, fails: &mut Vec<String>) {
             }
         }
     }
+    // C07: the tree-level counters are functions of the current version / super version
+    {
+        let n_tables: usize = order.len();
+        if c.tree.table_count() != n_tables {
+            fails.push(format!("C07 after `{tag}`: table_count() = {} vs {n_tables} tables in the version", c.tree.table_count()));
+        }
+        for (li, lvl) in v.iter_levels().enumerate() {
+            let n: usize = lvl.iter().map(|r| r.len()).sum();
+            if c.tree.level_table_count(li) != Some(n) {
+                fails.push(format!("C07 after `{tag}`: level_table_count({li}) = {:?} vs {n}", c.tree.level_table_count(li)));
+            }
+        }
+        let l0_runs = v.iter_levels().next().map_or(0, |l| l.len());
+        if c.tree.l0_run_count() != l0_runs {
+            fails.push(format!("C07 after `{tag}`: l0_run_count() = {} vs {l0_runs}", c.tree.l0_run_count()));
+        }
+        let tombs: u64 = order.iter().map(|o| o.3.iter().filter(|e| e.is_tomb()).count() as u64).sum();
+        if c.tree.tombstone_count() != tombs {
+            fails.push(format!("C07 after `{tag}`: tombstone_count() = {} vs {tombs} tombstones stored in tables", c.tree.tombstone_count()));
+        }
+        let weak: u64 = order.iter().map(|o| o.3.iter().filter(|e| e.vt == 2).count() as u64).sum();
+        if c.tree.weak_tombstone_count() != weak {
+            fails.push(format!("C07 after `{tag}`: weak_tombstone_count() = {} vs {weak} weak tombstones stored in tables", c.tree.weak_tombstone_count()));
+        }
+        let sealed = va::sealed_memtables(&sv).len();
+        if c.tree.sealed_memtable_count() != sealed {
+            fails.push(format!("C07 after `{tag}`: sealed_memtable_count() = {} vs {sealed}", c.tree.sealed_memtable_count()));
+        }
+    }
     // C20: files on disk vs files named by the history (quiescent moment: no iterator or compaction is alive)
     {
         let hist = va::dump_history(tree);
